@@ -297,8 +297,15 @@ static const a_real g3e[] = {A_MF_GAUSS, 1, -1, A_MF_GBELL, 1, 2, 0, A_MF_GAUSS,
 static const a_real m7e[] = {TRI, -1.5, -1.5, -1, TRI, -1.5, -1, -.5, TRI, -1, -.5, 0, TRI, -.5, 0, .5, TRI, 0, .5, 1, TRI, .5, 1, 1.5, TRI, 1, 1.5, 1.5};
 static const a_real m7kp[] = {-3, -3, -2, -2, -1, 0, 0, -3, -3, -2, -1, -1, 0, 1, -2, -2, -2, -1, 0, 1, 1, -2, -2, -1, 0, 1, 2, 2, -1, -1, 0, 1, 1, 2, 2, -1, 0, 1, 2, 2, 2, 3, 0, 0, 2, 2, 2, 3, 3};
 static const a_real mixe[] = {A_MF_LINZ, -2, -1, A_MF_PI, -2, -1, 1, 2, A_MF_LINS, 1, 2}; // ramps at both ends, pi-shaped centre
+// tables that mix kinds with 2, 3 and 4 parameters (the table walker steps over each set by the parameter count of its kind); every one of
+// the 13 kinds occurs in one of the two
+// (the smooth sets are wide: over the whole lattice their degrees stay far above the activation threshold, so that no set sits on it)
+static const a_real k5e[] = {A_MF_PSIG, 2, -1.5, -2, -0.5, A_MF_GAUSS2, 1.5, -0.5, 1.5, 0.5, A_MF_DSIG, 2, 0.25, 2, 1.25, A_MF_TRAP, 0.5, 1, 1.5, 2, A_MF_PI, -2, -1.5, -1, -0.5};
+static const a_real k8e[] = {A_MF_GBELL, 1.5, 2, -1.5, A_MF_TRI, -2, -1, 0, A_MF_SIG, 1, 0.5, A_MF_GAUSS, 1.5, 0, A_MF_S, 0, 1.5, A_MF_Z, -1.5, 0, A_MF_LINS, 0.5, 2, A_MF_LINZ, -2, -0.5};
+static const a_real k8k[64] = {-2, -1, 0, 1, 2, -2, -1, 0, -1, 0, 1, 2, -2, -1, 0, 1, 0, 1, 2, -2, -1, 0, 1, 2, 1, 2, -2, -1, 0, 1, 2, -2,
+                               2, -2, -1, 0, 1, 2, -2, -1, -2, -1, 0, 1, 2, -2, -1, 0, -1, 0, 1, 2, -2, -1, 0, 1, 0, 1, 2, -2, -1, 0, 1, 2};
 struct Base { const char *name; unsigned n, active; const a_real *me, *mec, *kp, *ki, *kd; };
-static const Base BASES[9] = {
+static const Base BASES[11] = {
     {"3x3 shoulder triangles (test/pid_fuzzy.h)", 3, 2, m3e, m3ec, m3kp, m3ki, m3kd},
     {"5x5 trapezoid shoulders", 5, 2, m5e, m5e, m5k, m5k, nullptr},
     {"3x3 wide triangles, 3 active", 3, 3, w3e, w3e, w3k, nullptr, w3k},
@@ -308,6 +315,8 @@ static const Base BASES[9] = {
     {"3x3 shoulder triangles without a kp table", 3, 2, m3e, m3ec, nullptr, m3ki, m3kd},
     {"3x3 unsorted table (left, right, middle)", 3, 2, u3e, u3e, u3k, u3k, u3k},
     {"2 huge ramps + triangle (tiny firing strengths)", 3, 3, n3e, n3e, u3k, u3k, u3k},
+    {"5 sets of the four-parameter kinds (psig, gauss2, dsig, trap, pi)", 5, 5, k5e, k5e, m5k, m5k, m5k},
+    {"8 sets of the two- and three-parameter kinds (gbell, tri, sig, gauss, s, z, lins, linz)", 8, 8, k8e, k8e, k8k, k8k, k8k},
 };
 static const unsigned OPRS[7] = {A_PID_FUZZY_EQU, A_PID_FUZZY_CAP, A_PID_FUZZY_CAP_ALGEBRA, A_PID_FUZZY_CAP_BOUNDED, A_PID_FUZZY_CUP, A_PID_FUZZY_CUP_ALGEBRA, A_PID_FUZZY_CUP_BOUNDED};
 static const char *OPRN[7] = {"equ", "cap", "cap_algebra", "cap_bounded", "cup", "cup_algebra", "cup_bounded"};
@@ -344,6 +353,22 @@ static void inference(bool thorough)
             a_pid_fuzzy_set_rule(&c, B.n, B.me, B.mec, B.kp, B.ki, B.kd);
             a_pid_fuzzy_set_kpid(&c, 10, 1, (a_real)0.25);
             a_pid_fuzzy_set_bfuzz(&c, raw.data() + 64, B.active);
+            // the rule tables taken away again: a controller that was scheduling gains goes back to its base gains at the next step
+            // (the gains are "the base gains plus a weighted mean of the consequents of the active rules": no table, no correction)
+            {
+                a_pid_fuzzy_zero(&c);
+                a_pid_fuzzy_run(&c, (a_real)0.25, 0);
+                a_pid_fuzzy_run(&c, (a_real)-0.5, 0);
+                a_pid_fuzzy_set_rule(&c, B.n, B.me, B.mec, nullptr, nullptr, nullptr);
+                a_pid_fuzzy_run(&c, (a_real)0.75, 0);
+                ++n;
+                if (c.pid.kp != 10 || c.pid.ki != 1 || c.pid.kd != (a_real)0.25)
+                {
+                    R.viol(std::string("infer|") + OPRN[o] + "|tables-detached", "after the rule tables were detached the next step left the gains at (" + num((double)c.pid.kp) + ", " + num((double)c.pid.ki) + ", " + num((double)c.pid.kd) + ") instead of the base gains (10, 1, 0.25)",
+                           "{\"base\":\"" + std::string(B.name) + "\",\"operator\":\"" + OPRN[o] + "\"}");
+                }
+                a_pid_fuzzy_set_rule(&c, B.n, B.me, B.mec, B.kp, B.ki, B.kd);
+            }
             for (int i = 0; i < G; ++i)
             {
                 for (int j = 0; j < G; ++j)
